@@ -6,7 +6,9 @@ Two call forms are replaced by the callee's body (same module only, private call
   void   `self._helper(a, b)` / `_helper(a, b)` as an expression statement, when the callee never returns a value and has no
          early `return`;
   tail   `return self._helper(a, b)` / `return _helper(a, b)`: the callee's body, its returns kept (the call is in tail position);
-  value  `x = self._helper(a, b)` when the callee's only `return <expr>` is its last statement: the body, then `x = <expr>`.
+  value  `x = self._helper(a, b)` when the callee's only `return <expr>` is its last statement: the body, then `x = <expr>`;
+  expr   `... _helper(a, b) ...` anywhere in an expression when the callee's body is the single statement `return <expr>` and the arguments
+         are side-effect free: the expression with the arguments put in.
 
 Parameters are bound by name: a parameter whose argument is a plain name (or `self`) and which the callee never re-binds is
 renamed to the argument; any other parameter becomes a fresh local assigned once before the body (`p__i1 = <argument>`), defaults
@@ -43,7 +45,9 @@ def _simple_body(g: Func) -> bool:
     for n in ast.walk(g.node):
         if n is g.node:
             continue
-        if isinstance(n, (ast.FunctionDef, ast.AsyncFunctionDef, ast.Lambda, ast.ClassDef, ast.Yield, ast.YieldFrom, ast.Global, ast.Nonlocal, ast.Await)):
+        if isinstance(n, (ast.AsyncFunctionDef, ast.ClassDef, ast.Yield, ast.YieldFrom, ast.Global, ast.Nonlocal, ast.Await)):
+            return False
+        if isinstance(n, ast.FunctionDef) and (n.decorator_list or any(isinstance(x, ast.Return) for x in ast.walk(n)) and False):
             return False
     if g.node.decorator_list:
         return False
@@ -52,7 +56,18 @@ def _simple_body(g: Func) -> bool:
 
 
 def _returns(g: Func):
-    return [n for n in ast.walk(g.node) if isinstance(n, ast.Return)]
+    """the return statements of g itself (not those of functions defined inside it)"""
+    out = []
+
+    def go(n):
+        for c in ast.iter_child_nodes(n):
+            if isinstance(c, (ast.FunctionDef, ast.AsyncFunctionDef, ast.Lambda)):
+                continue
+            if isinstance(c, ast.Return):
+                out.append(c)
+            go(c)
+    go(g.node)
+    return out
 
 
 class _Rename(ast.NodeTransformer):
@@ -129,9 +144,57 @@ def _expand(model: Model, f: Func, call: ast.Call, counter: list):
     return g, prologue, body or [ast.copy_location(ast.Pass(), call)]
 
 
+def _pure_arg(e) -> bool:
+    """an argument that may be duplicated / moved: names, attributes, constants, subscripts and arithmetic of those, len(...)"""
+    return all(isinstance(x, (ast.Name, ast.Attribute, ast.Constant, ast.Subscript, ast.BinOp, ast.UnaryOp, ast.operator, ast.unaryop, ast.expr_context,
+                              ast.Tuple, ast.List, ast.Slice)) or (isinstance(x, ast.Call) and isinstance(x.func, ast.Name) and x.func.id == "len")
+               for x in ast.walk(e))
+
+
+class _ExprInline(ast.NodeTransformer):
+    """`_helper(a, b)` inside an expression, where the helper's body is one `return <expr>`: the expression with the arguments put in"""
+
+    def __init__(self, model, f, counter, depth):
+        self.model, self.f, self.counter, self.depth = model, f, counter, depth
+
+    def visit_Call(self, n):
+        self.generic_visit(n)
+        if self.depth <= 0:
+            return n
+        g, is_method = _callee(self.model, self.f, n)
+        if g is None or g.qual == self.f.qual or not _simple_body(g) or n.keywords or any(isinstance(a, ast.Starred) for a in n.args):
+            return n
+        body = [st for st in g.node.body if not (isinstance(st, ast.Expr) and isinstance(st.value, ast.Constant) and isinstance(st.value.value, str))]
+        if len(body) != 1 or not isinstance(body[0], ast.Return) or body[0].value is None:
+            return n
+        params = g.params()
+        args = ([ast.Name(id="self", ctx=ast.Load())] if is_method else []) + list(n.args)
+        defaults = g.node.args.defaults
+        if len(args) > len(params) or len(args) < len(params) - len(defaults) or not all(_pure_arg(a) for a in args):
+            return n
+        bind = dict(zip(params, args))
+        for p, dflt in zip(params[len(params) - len(defaults):], defaults):
+            bind.setdefault(p, dflt)
+        # names bound inside the expression (comprehension variables) must not collide with the arguments' names
+        inner = {x.id for x in ast.walk(body[0].value) if isinstance(x, ast.Name) and isinstance(x.ctx, ast.Store)}
+        if inner & {x.id for a in bind.values() for x in ast.walk(a) if isinstance(x, ast.Name)}:
+            return n
+        self.counter[0] += 1
+        e = _Rename(bind).visit(copy.deepcopy(body[0].value))
+        e = _ExprInline(self.model, self.f, self.counter, self.depth - 1).visit(e)
+        return ast.copy_location(e, n)
+
+
 def _inline_block(model: Model, f: Func, stmts: list, depth: int, counter: list) -> list:
     out = []
     for s in stmts:
+        if depth > 0 and not isinstance(s, (ast.FunctionDef, ast.AsyncFunctionDef, ast.ClassDef)):
+            # calls of one-expression helpers inside the expressions of this statement (headers of compound statements included)
+            for fld, val in list(ast.iter_fields(s)):
+                if isinstance(val, ast.expr):
+                    setattr(s, fld, _ExprInline(model, f, counter, depth).visit(val))
+                elif isinstance(val, list) and val and isinstance(val[0], ast.expr):
+                    setattr(s, fld, [_ExprInline(model, f, counter, depth).visit(v) for v in val])
         for fld in ("body", "orelse", "finalbody"):
             b = getattr(s, fld, None)
             if isinstance(b, list) and b and isinstance(b[0], ast.stmt):
